@@ -340,7 +340,7 @@ def eval_cons(cons, ops, outs):
     return None
 
 
-def shrink_oracle_failure(binp, case, workdir, extra_args=(), budget=120):
+def shrink_oracle_failure(binp, case, workdir, extra_args=(), budget=80, cfgline=""):
     """greedy op deletion for a case whose oracle fails on the real implementation: an op may go when
     no constraint refers to it and some constraint still fails (with the same message) afterwards.
     Only the native runner is used.  Returns (ops, outputs, message)."""
@@ -357,6 +357,17 @@ def shrink_oracle_failure(binp, case, workdir, extra_args=(), budget=120):
         if eval_cons([c], ops, outs[0] or []) is not None:
             cons = [c]
             break
+    def shape(o):
+        return o if o in ("nohandle", "none", "bad-op", "unsupported", "panic", "ok") else f"len{len(o)}"
+
+    def shapes(cs, outs_):
+        r = []
+        for c in cs:
+            r.append(shape(outs_[c[1]]) if c[1] < len(outs_) else None)
+            if c[0] in ("eq", "ne"):
+                r.append(shape(outs_[c[2]]) if c[2] < len(outs_) else None)
+        return r
+    want = shapes(cons, outs[0] or [])      # the minimised case must fail in the same way (digests stay digests)
     tries = 0
     i = len(ops) - 1
     while i >= 0 and tries < budget:
@@ -378,10 +389,46 @@ def shrink_oracle_failure(binp, case, workdir, extra_args=(), budget=120):
             cand_cons.append(c2)
         o, _ = run_real(binp, [Case(cand_ops)], workdir, "shrink", extra_args=extra_args, shards=1)
         tries += 1
-        if o[0] is not None and len(o[0]) >= len(cand_ops) and eval_cons(cand_cons, cand_ops, o[0]) is not None:
+        ok = o[0] is not None and len(o[0]) >= len(cand_ops) and eval_cons(cand_cons, cand_ops, o[0]) is not None \
+            and shapes(cand_cons, o[0]) == want
+        if ok:
+            # the shortened history must still be a meaningful test: the constraint has to HOLD on the
+            # model (the reference behaviour) while it fails on the implementation
+            mo, mbad = run_model([Case(cand_ops)], workdir, "shrink", cfgline, shards=1)
+            ok = (not mbad) and mo[0] is not None and eval_cons(cand_cons, cand_ops, mo[0]) is None
+        if ok:
             ops, cons, outs = cand_ops, cand_cons, o
         i -= 1
-    return ops, outs[0], eval_cons(cons, ops, outs[0] or [])
+    return ops, outs[0], eval_cons(cons, ops, outs[0] or []), cons
+
+
+def load_corpus(pid, info):
+    """minimised past failures (from the seeded defects and the three repaired findings): they run first"""
+    import gen
+    p = os.path.join(ROOT, "corpus", f"{pid}.json")
+    if not os.path.exists(p):
+        return []
+    out = []
+    std = info.get("std") == "1"
+    avail = {"portable", "auto"}
+    if info.get("arch") == "x86_64":
+        if info.get("cpu_sse41") == "1":
+            avail.add("sse")
+        if info.get("cpu_avx2") == "1":
+            avail.add("avx")
+    for e in json.load(open(p)):
+        ops = e["ops"]
+        # skip entries that need a back end / trait this configuration does not have
+        sels = {t for o in ops for t in o.split(" ")[1:3] if t in ("portable", "sse", "avx", "neon", "wasm", "auto")}
+        if not sels <= avail:
+            continue
+        if not std and any(o.split(" ")[0] in ("iowrite", "writeall", "iocopy", "flush") for o in ops):
+            continue
+        b = gen.B("corpus:" + e.get("source", "?"), ["corpus"])
+        b.ops = list(ops)
+        b.cons = [tuple(c) for c in e["cons"]]
+        out.append(b)
+    return out
 
 
 def first_diff(a, b):
